@@ -541,6 +541,22 @@ package generator
 //@   arg-from Load 0 call:extractRefNames:1
 //@   guarded AddImport unless-equal-fields QualifiedName
 
+// ---- "$ref": "#" (the document's own root) ---------------------------------------
+// Scenario: the generator's document is registered, and the node holding the ref is
+// itself a declaration under construction (generateDeclaredType registers every
+// node before it recurses) — the situation of every property `{"$ref": "#"}`. A
+// successful result is a type; a nil type here ends as a declaration without a
+// type, on which TypeDecl.Generate panics (C18), and as a field without one (C10).
+//@ func (*schemaGenerator).generateReferencedType@self
+//@   props C10 C18
+//@   option shape-zero t.
+//@   option noframe
+//@   shape g = sgen(@registered)
+//@   shape t = new
+//@   shape t.Ref = "#"
+//@   setup map_put(g.output.declsBySchema, t, new_decl("TChild"))
+//@   ensures [C10,C18] a-type-or-an-error: (result1 == nil) != (result0 == nil)
+
 // ---- the four bound keywords reach type selection in their own positions --------
 // PrimitiveTypeFromJSONSchemaType(jsType, format, pointer, minIntSize, &Minimum,
 // &Maximum, &ExclusiveMinimum, &ExclusiveMaximum): all four are pointers of
